@@ -171,7 +171,8 @@ func (t *SymbolTable) Verify() error {
 func (t *SymbolTable) ensureSingleDefs() error {
 	var errs error
 
-	for a, e := range t.terminals.table.All() {
+	for _, item := range t.orderedTerminals() {
+		a, e := item.terminal, item.entry
 		if count := len(e.definitions); count == 0 {
 			errs = errors.Append(errs, fmt.Errorf("no definition for terminal %s", a))
 		} else if count > 1 {
@@ -192,16 +193,21 @@ func (t *SymbolTable) ensureSingleDefs() error {
 func (t *SymbolTable) ensureDistinctDefs() error {
 	var errs error
 
+	// The values are kept in the order of their first appearance, so the errors are reported in a stable order.
+	var values []string
 	reverse := make(map[string][]*TerminalDef)
-	for _, e := range t.terminals.table.All() {
-		if len(e.definitions) == 1 {
+	for _, item := range t.orderedTerminals() {
+		if e := item.entry; len(e.definitions) == 1 {
 			def := e.definitions[0]
+			if _, ok := reverse[def.Value]; !ok {
+				values = append(values, def.Value)
+			}
 			reverse[def.Value] = append(reverse[def.Value], def)
 		}
 	}
 
-	for val, defs := range reverse {
-		if len(defs) > 1 {
+	for _, val := range values {
+		if defs := reverse[val]; len(defs) > 1 {
 			poses := generic.Transform(defs, func(def *TerminalDef) string {
 				return fmt.Sprintf("  %s: %s", def.Pos, def.Terminal)
 			})
@@ -213,6 +219,27 @@ func (t *SymbolTable) ensureDistinctDefs() error {
 	}
 
 	return errs
+}
+
+// terminalItem is a terminal alongside its entry in the symbol table.
+type terminalItem struct {
+	terminal grammar.Terminal
+	entry    *terminalEntry
+}
+
+// orderedTerminals returns all terminals in the order they were added to the symbol table.
+// The order of traversing the underlying hash table is not stable across runs.
+func (t *SymbolTable) orderedTerminals() []terminalItem {
+	items := make([]terminalItem, 0, t.terminals.table.Size())
+	for a, e := range t.terminals.table.All() {
+		items = append(items, terminalItem{terminal: a, entry: e})
+	}
+
+	sort.Quick(items, func(lhs, rhs terminalItem) int {
+		return lhs.entry.index - rhs.entry.index
+	})
+
+	return items
 }
 
 // ensureStartSymbol ensures a production rule exists with the start symbol as the head non-terminal.
